@@ -137,14 +137,15 @@ WIDE = [
     "z := 1+2i\nw := 3-1i\nz * w", "a := \"foo\"\nb := \"bar\"\n[a b]", "x := 3\ny := math/atan2(x, 4)\ny", "c := combinatorics/n-choose-k(5, 2)\nc",
     "m := [1 2 3]\nm > 1", "x := {1,2,3}\n2 ∈ x", "e := _\ne", "x<u8> := 200\nx", "x<[u8]:1,3> := [1 2 3]\nx + x",
     # table constants: every cell goes through the per-value constant codec (ConstElem for Value), one arm per kind;
-    # values outside the 64-bit range for the 128-bit kinds, boundary values for the others
-    "x := | a<u128> | 18446744073709551616 | 7 |\nx",
-    "x := | a<i128> b<u8> | 100000000000000000000 1 | -100000000000000000000 2 |\nx",
-    "x := | a<u64> b<i64> | 18446744073709551615 -9223372036854775807 | 1 2 |\nx",
-    "x := | a<u8> b<i8> c<u16> d<i16> | 255 -128 65535 -32768 | 0 127 1 32767 |\nx",
-    "x := | a<u32> b<i32> c<f32> | 4294967295 -2147483648 1.5 | 0 2147483647 -0.25 |\nx",
-    "x := | a<f64> b<bool> c<string> | 0.1 true \"héllo\" | -1e300 false \"\" |\nx",
-    "x := | a<u128> b<i128> | 340282366920938463463374607431768211455 -170141183460469231731687303715884105727 |\nx",
+    # values outside the 64-bit range for the 128-bit kinds, boundary values for the others (the program ends with the
+    # definition itself: a trailing bare `x` would put the case into the class result-is-last-step)
+    "x := | a<u128> | 18446744073709551616 | 7 |",
+    "x := | a<i128> b<u8> | 100000000000000000000 1 | -100000000000000000000 2 |",
+    "x := | a<u64> b<i64> | 18446744073709551615 -9223372036854775807 | 1 2 |",
+    "x := | a<u8> b<i8> c<u16> d<i16> | 255 -128 65535 -32768 | 0 127 1 32767 |",
+    "x := | a<u32> b<i32> c<f32> | 4294967295 -2147483648 1.5 | 0 2147483647 -0.25 |",
+    "x := | a<f64> b<bool> c<string> | 0.1 true \"héllo\" | -1e300 false \"\" |",
+    "x := | a<u128> b<i128> | 340282366920938463463374607431768211455 -170141183460469231731687303715884105727 |",
 ]
 
 
@@ -196,6 +197,11 @@ def generate(tier, rng):
     reps = 1 if tier == "quick" else 5
     for _ in range(reps):
         for src in WIDE:
+            # a trailing bare reference to the variable the previous line defines adds nothing (the last plan step is that
+            # definition) but would put the case into the class result-is-last-step, which accepts ANY differing result
+            ls = src.split("\n")
+            if len(ls) >= 2 and IDENT.match(ls[-1].strip()) and ls[-2].startswith(ls[-1].strip() + " := "):
+                src = "\n".join(ls[:-1])
             fl = flags_of([src], False)
             yield dict(sx=sx(["bc", 0, fl, q(src)]), impl=dict(src=src, plan=1, hex=True), tags=dict(stream="wide"))
 
